@@ -10,8 +10,8 @@ import random
 NONE = 99
 KEYS = ['a', 'b', 'c', 'd', 'e']
 FAIL = ['FilterException', 'SubFilterException', 'UserValueError', 'UserKeyError',
-        'UserBaseException']
-CATCH = ['Filter', 'FilterOrValue', 'Exception', 'UserKey']
+        'UserIndexError', 'UserBaseException']
+CATCH = ['Filter', 'FilterOrValue', 'Exception', 'UserKey', 'Lookup']
 
 
 def source(rng, maxlen, payload='i'):
